@@ -6,6 +6,8 @@ import (
 	"strconv"
 	"strings"
 
+	"github.com/zerx-lab/wordZero/pkg/document"
+
 	"verif/inspect"
 	"verif/sim"
 	"verif/world"
@@ -97,6 +99,16 @@ func (c15) Gen(r *sim.Rand, c *sim.Case, tier string) {
 			}
 			headTexts = append(headTexts, ht)
 			a = append(a, sim.Op{K: "heading", S: []sim.Str{ht}, I: []int{r.Range(1, 9)}})
+			if tocMax != 0 && r.Chance(0.25) {
+				// the heading is taken out again and another one put in its place (the body has as many elements as before); a table of
+				// contents that is refreshed afterwards lists the new one
+				tag++
+				nt := sim.Str(fmt.Sprintf("Sec %d⟦%d⟧", tag%4, tag))
+				a = append(a, sim.Op{K: "rm.para", I: []int{-1, 0, 7}}, sim.Op{K: "heading", S: []sim.Str{nt}, I: []int{r.Range(1, 3)}})
+				if (tocMax == 3 && !tocTwice) || Wild {
+					a = append(a, sim.Op{K: "toc.update"})
+				}
+			}
 		case x < 17:
 			if tocMax == 0 {
 				tocMax = r.Range(1, 9)
@@ -174,6 +186,8 @@ func (c15) Exec(c *sim.Case, env *Env) []sim.Violation {
 	var items []c15item
 	var notes []c15note
 	var heads []c15head
+	lastWasHeading := false
+	var headHandle *document.Paragraph
 	nextFn, nextEn := 1, 1
 	tocMax := 0            // level of the TOC currently in the document (0 = none)
 	var tocHeads []c15head // headings the TOC must list (as of the last TOC call)
@@ -242,6 +256,12 @@ func (c15) Exec(c *sim.Case, env *Env) []sim.Violation {
 		if ds.Slot != 0 || o.Skipped || ds.Dead {
 			return
 		}
+		// the paragraph handle the harness holds last: is it the heading a "heading" operation appended? (whatever operations
+		// that add no paragraph came in between)
+		wasHeading := lastWasHeading && len(ds.Paras) > 0 && ds.Paras[len(ds.Paras)-1] == headHandle
+		if op.K == "heading" && len(ds.Paras) > 0 {
+			lastWasHeading, headHandle = op.Str(0) != "", ds.Paras[len(ds.Paras)-1]
+		}
 		switch op.K {
 		case "li":
 			if o.Res == "nil" {
@@ -288,6 +308,10 @@ func (c15) Exec(c *sim.Case, env *Env) []sim.Violation {
 		case "heading":
 			if op.Str(0) != "" {
 				heads = append(heads, c15head{op.Int(0), op.Str(0)})
+			}
+		case "rm.para":
+			if op.Int(2) == 7 && wasHeading && o.Res == "true" && len(heads) > 0 {
+				heads = heads[:len(heads)-1] // the heading the previous operation appended
 			}
 		case "toc.gen", "toc.update":
 			if o.Err != nil {
